@@ -30,7 +30,7 @@ from . import lib
 from . import vtkenc as V
 from .lib import clist, cnat, cqfrac
 
-REPAIRED = {"F-C07a": False, "F-C07b": False}
+REPAIRED = {"F-C07a": True, "F-C07b": True}
 # experiments only (mutation / candidate-fix runs against a scratch copy): VERIF_REPAIRED=F-C06a,F-C06b switches entries on
 for _k in filter(None, os.environ.get("VERIF_REPAIRED", "").split(",")):
     if _k in REPAIRED:
